@@ -286,6 +286,7 @@ fn label_loc(s: &raw::Shape) -> Option<raw::Point> {
     None
 }
 pub fn oracle_c07(line: &str) -> String {
+    if line.starts_with("layers.ops ") { return crate::props::layers::oracle(line); }
     let p = match Sexp::parse_all(line) { Some(p) if p.len() == 2 && p[0].atom() == Some("rawgds.export") => p, _ => return "na".into() };
     let lib = match p_glib(&p[1]) { Some(x) => x, None => return "na".into() };
     let out = (|| -> String {
@@ -621,6 +622,7 @@ fn c06_judge(g: &GdsLibrary, tbl: Option<Ptr<raw::Layers>>) -> String {
     }
 }
 pub fn tag(line: &str) -> String {
+    if line.starts_with("layers.ops ") { return format!("layers.ops:{}", line.matches('(').count().min(24)); }
     let p = match Sexp::parse_all(line) { Some(p) if p.len() == 2 => p, _ => return "-".into() };
     let op = p[0].atom().unwrap_or("").to_string();
     let r = crate::ops::run_line(line);
@@ -699,6 +701,8 @@ pub fn gen_c07(thorough: bool, rng: &mut Rng, out: &mut Vec<String>) {
     for _ in 0..(if thorough { 40000 } else { 5000 }) {
         out.push(format!("rawgds.export {}", gen_glib(rng)));
     }
+    // the layer / purpose tables under a history of operations (model: Model/Layers.lean)
+    crate::props::layers::gen(thorough, rng, out);
 }
 fn gds_units(rng: &mut Rng) -> GdsUnits {
     match rng.below(12) { 0 => GdsUnits(1.0, 1e-6), 1 => GdsUnits(1e-4, 1e-10), 2 => GdsUnits(1e-6, 1e-12), 3 => GdsUnits(1e-3, 1e-3), _ => GdsUnits(1e-3, 1e-9) }
